@@ -221,7 +221,11 @@ PROPS = {
     ),
     'C02': dict(
         title='extends/isOrExtends equal reachability over current bases, after any rebasing',
-        contracts=['C02_spec'], falsifier='C02', modes=['py', 'c'], level='other',
+        contracts=['C02_spec', 'C02_c'], cfun=['C02_c'], falsifier='C02', modes=['py', 'c'], level='other',
+        level_text_extra=" The queries themselves are verified in BOTH implementations against one specification (contracts/C02_c.py): "
+                         "SpecificationBase.isOrExtends/__call__/providedBy/implementedBy from the Python ast and SB_extends/SB__call__/"
+                         "SB_providedBy/SB_implementedBy from the clang AST answer membership in the _implied mapping (of the declaration, for the "
+                         "latter two), a missing _implied is an AttributeError, an unhashable argument a TypeError.",
         level_text="The dependents bookkeeping is verified from the real bodies: Specification.dependents/subscribe/unsubscribe keep "
                    "exact positive counts; Specification.__setBases (the __bases__ setter) leaves the specification subscribed to "
                    "exactly its new bases with multiplicity, touches nobody else's bookkeeping and notifies itself last; "
@@ -262,11 +266,18 @@ PROPS = {
                    'interface is returned without calling anything, otherwise exactly the first k hooks are called in list order with '
                    '(interface, object), none of the first k-1 decides, the k-th decides by result or exception or all were called and '
                    'None is returned, NULL iff an exception is set; a bridging lemma (proved) shows that this loop summary is the '
-                   'decision list of the Python contract. IB__call__ (argument parsing, __conform__, custom __adapt__ flag) is compared '
-                   'with the decision list exhaustively over the product of the statement (hook lists <= 2/3, attribute locations, '
-                   'inherited custom __adapt__, adaptation sequences), bounded.',
-        level_note='assumes hooks do not edit the hook list (C11 covers that), providedBy is a pure query, the _call_conform '
-                   'TypeError heuristic is outside the domain; CPython API models trusted (A2); IB__call__ bounded.',
+                   'decision list of the Python contract, and the same fact is proved in the form of the Python contract. IB__call__ is verified '
+                   'from the clang AST against the very decision list the Python __call__ is verified against (call_spec of '
+                   'contracts/C14_adapt.py): argument parsing fails before anything runs, a missing __conform__ (AttributeError while '
+                   'fetching it) is skipped and any other error of fetching it propagates, the non-None result of _call_conform wins, '
+                   'an interface whose class carries the _CALL_CUSTOM_ADAPT flag calls its custom __adapt__ and otherwise IB__adapt__ (by '
+                   'contract), then the alternate, then TypeError; an exception raised by any step -- also an AttributeError raised '
+                   'INSIDE __conform__ -- propagates and nothing later runs. The product of the statement (hook lists <= 2/3, attribute '
+                   'locations, inherited custom __adapt__, adaptation sequences, hooks that re-enter adaptation) is additionally run bounded '
+                   'in both implementations.',
+        level_note='assumes hooks do not edit the hook list (C11 covers that), providedBy is a pure query that does not fail, the '
+                   '_call_conform TypeError heuristic is outside the domain, the _CALL_CUSTOM_ADAPT flag is present exactly for interfaces '
+                   'with a custom __adapt__ (InterfaceClass.__new__, bounded); CPython API models trusted (A2).',
     ),
     'C15': dict(
         title='Attribute, tagged-value and invariant resolution all follow the resolution order',
@@ -357,7 +368,7 @@ PROPS = {
     ),
     'C10': dict(
         title='The C accelerator is observationally equivalent to the Python reference',
-        contracts=[], cfun=['C12_c', 'C14_c', 'C05_c', 'C06_c'], falsifier='C10', modes=['py', 'c'], level='other', differential=True,
+        contracts=[], cfun=['C12_c', 'C14_c', 'C05_c', 'C06_c', 'C02_c'], falsifier='C10', modes=['py', 'c'], level='other', differential=True,
         cfunctions=['_subcache', '_getcache', '_lookup', '_lookup1', '_adapter_hook', '_lookupAll', '_subscriptions', 'IB__adapt__', 'SB_extends', 'SB_providedBy', 'SB_implementedBy'],
         creturns={'_subcache': 'borrowed', '_getcache': 'borrowed'},
         level_text='Bounded differential check: six generated API programs (about 18k steps: registry chains 3-4 deep of both flavours with a mutation at every level and warm leaf caches, specification queries, comparison and hashing, '
@@ -366,12 +377,12 @@ PROPS = {
                    'the bounded checks of C01-C09, C12-C14, C19 run under both implementations against one executable contract each. '
                    'Twin pairs verified against ONE functional contract (C side from the clang AST by the functional C front end, Python '
                    'side from the ast): IB_richcompare / _compare+__lt__..__ge__+__eq__+__ne__ and IB__hash__ / __hash__ (key order, C12), '
-                   'IB__adapt__ / __adapt__ (hook decision list, C14), _getcache/_lookup/_lookup1/_adapter_hook/_lookupAll/_subscriptions/LB_changed and their '
+                   'IB__adapt__ / __adapt__ and IB__call__ / __call__ (decision list of the adaptation protocol, C14), _getcache/_lookup/_lookup1/_adapter_hook/_lookupAll/_subscriptions/LB_changed and their '
                    'LookupBase twins (cache-soundness invariant and result clauses, C05/C08), _verify/verify_changed/VB_* and the VerifyingBase '
-                   'twins (generation snapshot, C06); more pairs are listed in the evidence as they are added. '
+                   'twins (generation snapshot, C06), SB_extends/SB__call__/SB_providedBy/SB_implementedBy and the SpecificationBase twins '
+                   '(membership in _implied, C02); more pairs are listed in the evidence as they are added. '
                    'The ownership obligations of the C functions (see C11) are discharged as part of this check.',
-        level_note='equivalence of the twins that are not listed as verified pairs is bounded (fixed programs and argument pool): SB_extends, '
-                   'SB_providedBy, SB_implementedBy, implementedBy, providedBy, getObjectSpecification, the descriptors, IB__call__; the CPython API '
+        level_note='equivalence of the twins that are not listed as verified pairs is bounded (fixed programs and argument pool): implementedBy, providedBy, getObjectSpecification, the descriptors; the CPython API '
                    'models of the C contract modules are trusted.',
         explanation='differential execution of generated programs under both implementations; ownership obligations of the C twins discharged',
         not_decided=['programs reaching C-only behaviour through user subclasses overriding the hooks', 'pre-3.11 static-type branch of the C file, PyPy'],
